@@ -158,13 +158,68 @@ theorem path_prefix_of_anc (t : Tree) {a x : Nat} (h : Anc t a x) :
       obtain ⟨s', hs', rfl⟩ := hx
       exact List.prefix_append_of_prefix (ih n m sa s' ha hs')
 
+theorem ancWalk_cases (t : Tree) (c : Nat) : ∀ n x,
+    ancWalk t c n x = .ok ∨ ancWalk t c n x = .cyclicPathError ∨ ancWalk t c n x = .recursionError := by
+  intro n
+  induction n with
+  | zero => intro x; simp [ancWalk]
+  | succ n ih =>
+    intro x
+    simp only [ancWalk]
+    split
+    · simp
+    · split
+      · simp
+      · exact ih _
+
+theorem ancWalk_ok (t : Tree) (c : Nat) : ∀ n x, ancWalk t c n x = .ok → x ≠ c ∧ ¬ Anc t c x := by
+  intro n
+  induction n with
+  | zero => intro x h; simp [ancWalk] at h
+  | succ n ih =>
+    intro x h
+    simp only [ancWalk] at h
+    split at h
+    · cases h
+    · rename_i hxc
+      refine ⟨hxc, ?_⟩
+      split at h
+      · rename_i hp
+        intro ha
+        cases ha with
+        | base hq => rw [hp] at hq; cases hq
+        | step hq _ => rw [hp] at hq; cases hq
+      · rename_i q hp
+        have := ih q h
+        intro ha
+        cases ha with
+        | base hq => rw [hp] at hq; cases hq; exact this.1 rfl
+        | step hq hr => rw [hp] at hq; cases hq; exact this.2 hr
+
+/-- the walk only reads the parents of nodes other than the child itself -/
+theorem ancWalk_congr (t t' : Tree) (c : Nat) (hpar : ∀ x, x ≠ c → t'.parent x = t.parent x) :
+    ∀ n x, ancWalk t' c n x = ancWalk t c n x := by
+  intro n
+  induction n with
+  | zero => intro x; rfl
+  | succ n ih =>
+    intro x
+    simp only [ancWalk]
+    split
+    · rfl
+    · rename_i hxc
+      rw [hpar x hxc]
+      split
+      · rfl
+      · exact ih _
+
 /-- a passed check excludes that the child is a proper ancestor of the prospective parent -/
 theorem not_anc_of_cyclicCheck_ok (cfg : Cfg) (t : Tree) (p c : Nat)
     (h : cyclicCheck cfg t p c = .ok) : ¬ Anc t c p := by
   intro hanc
   unfold cyclicCheck at h
   split at h
-  · cases h
+  · exact (ancWalk_ok t c _ _ h).2 hanc
   · split at h
     · cases h
     · rename_i sp hsp
@@ -174,32 +229,39 @@ theorem not_anc_of_cyclicCheck_ok (cfg : Cfg) (t : Tree) (p c : Nat)
         have := path_prefix_of_anc t hanc _ _ sc sp hsc hsp
         simp [List.isPrefixOf_iff_prefix, this] at h
 
-theorem ne_of_cyclicCheck_ok (cfg : Cfg) (t : Tree) (p c : Nat) (hs : cfg.rejectSelf = true)
+theorem ne_of_cyclicCheck_ok (cfg : Cfg) (t : Tree) (p c : Nat) (hs : cfg.identityCheck = true)
     (h : cyclicCheck cfg t p c = .ok) : p ≠ c := by
-  intro e
   unfold cyclicCheck at h
-  simp [hs, e] at h
+  rw [if_pos hs] at h
+  exact (ancWalk_ok t c _ _ h).1
 
 theorem cyclicCheck_cases (cfg : Cfg) (t : Tree) (p c : Nat) :
     cyclicCheck cfg t p c = .ok ∨ cyclicCheck cfg t p c = .cyclicPathError ∨
       cyclicCheck cfg t p c = .recursionError := by
   unfold cyclicCheck
   split
-  · simp
+  · exact ancWalk_cases t c _ _
   · split
     · simp
     · split
       · simp
       · split <;> simp
 
-/-- the child's path does not change the outcome when the child hangs directly below the
-prospective parent: then its path is longer than the parent's and cannot be a prefix of it -/
-theorem cyclicCheck_child_of (cfg : Cfg) (t : Tree) (p c : Nat) (hne : p ≠ c)
+/-- identity variant: the outcome is insensitive to labels, children and the child's own parent -/
+theorem cyclicCheck_congr_identity {cfg : Cfg} (hs : cfg.identityCheck = true) (t t' : Tree)
+    (p c : Nat) (hpar : ∀ x, x ≠ c → t'.parent x = t.parent x) :
+    cyclicCheck cfg t' p c = cyclicCheck cfg t p c := by
+  unfold cyclicCheck
+  simp only [hs, if_true]
+  exact ancWalk_congr t t' c hpar _ _
+
+/-- string variant: when the child hangs directly below the prospective parent its path is
+longer than the parent's and cannot be a prefix of it -/
+theorem cyclicCheck_child_of (cfg : Cfg) (t : Tree) (p c : Nat) (hs : cfg.identityCheck = false)
     (hp : t.parent c = some p) :
     cyclicCheck cfg t p c = .ok ∨ cyclicCheck cfg t p c = .recursionError := by
   unfold cyclicCheck
-  have : ¬ (cfg.rejectSelf = true ∧ p = c) := fun h => hne h.2
-  simp only [this, if_false]
+  simp only [hs, Bool.false_eq_true, if_false]
   split
   · simp
   · rename_i sp hsp
@@ -233,7 +295,7 @@ theorem pathF_congr (t t' : Tree) (hp : t'.parent = t.parent) (hl : t'.label = t
 theorem cyclicCheck_congr (cfg : Cfg) (t t' : Tree) (hp : t'.parent = t.parent)
     (hl : t'.label = t.label) (p c : Nat) : cyclicCheck cfg t' p c = cyclicCheck cfg t p c := by
   unfold cyclicCheck
-  simp only [pathF_congr t t' hp hl]
+  simp only [pathF_congr t t' hp hl, ancWalk_congr t t' c (fun x _ => by rw [hp])]
 
 /-! ## the invariant -/
 
@@ -516,7 +578,7 @@ structure Repaired (cfg : Cfg) : Prop where
   f2 : cfg.prevalidate = true
   f3 : cfg.labelBeforePop = true
   f4 : cfg.rollbackAdopt = true
-  f5 : cfg.rejectSelf = true
+  f5 : cfg.identityCheck = true
   f6 : cfg.relabelByMembership = true
 
 theorem repaired_repaired (fuel : Nat) : Repaired (Cfg.repaired fuel) := ⟨rfl, rfl, rfl, rfl, rfl, rfl⟩
